@@ -272,22 +272,30 @@ func removeUnused(opts *FlattenOpts) {
 }
 
 func removeUnusedSinglePass(opts *FlattenOpts) (hasRemoved bool) {
-	expected := make(map[string]struct{})
+	// expected maps the JSON pointer of every definition to its name
+	expected := make(map[string]string)
 	for k := range opts.Swagger().Definitions {
-		expected[path.Join(definitionsPath, jsonpointer.Escape(k))] = struct{}{}
+		expected[path.Join(definitionsPath, jsonpointer.Escape(k))] = k
 	}
 
-	for _, k := range opts.Spec.AllDefinitionReferences() {
-		delete(expected, k)
-	}
+	for _, ref := range opts.Spec.references.schemas {
+		// compare with the unescaped fragment: the rendered $ref is URL-escaped, definition names are not
+		if u := ref.GetURL(); u != nil && ref.HasFragmentOnly {
+			delete(expected, "#"+u.Fragment)
 
-	for k := range expected {
-		hasRemoved = true
-		debugLog("removing unused definition %s", path.Base(k))
-		if opts.Verbose {
-			log.Printf("info: removing unused definition: %s", path.Base(k))
+			continue
 		}
-		delete(opts.Swagger().Definitions, path.Base(k))
+
+		delete(expected, ref.String())
+	}
+
+	for _, name := range expected {
+		hasRemoved = true
+		debugLog("removing unused definition %s", name)
+		if opts.Verbose {
+			log.Printf("info: removing unused definition: %s", name)
+		}
+		delete(opts.Swagger().Definitions, name)
 	}
 
 	opts.Spec.reload() // re-analyze
